@@ -9,6 +9,36 @@ CLAIMED = {
     note="Trusted: Kani 0.68/CBMC 6.11 semantics of Rust; the invariant inv() in harness/rc.rs; stubs (current_thread, thread_cleanup, enqueue); sequentially consistent atomics; counters <= 2^20; unwind 3. Outside: weak memory, dashmap internals, thread-id reuse, >3 threads.",
     technique="SAT-based bounded model checking (Kani/CBMC) of one inductive step over a symbolic reference-count word; native replay under valgrind",
     design="§4 C05"),
+ "C03": dict(
+    text="Bounded model checking (Kani/CBMC) of the test that authorises every in-place update of a shared value: the real get_mut / make_mut / try_unwrap of the reference-counting crate, one operation from EVERY count word satisfying the representation invariant and every acting thread; exclusive access / in-place mutation only with exactly one live reference, other holders keep seeing the old contents. This is the part of the property that does not depend on the compiler.",
+    note="As C05. Outside: the compiler's last-use analysis and MOVE* opcodes (they decide when the count is 1), persistent-collection node reuse, the collection primitives themselves (hash_insert on an imbl map did not finish in 13 min).",
+    technique="SAT-based bounded model checking (Kani/CBMC) of one inductive step over a symbolic reference-count word; native replay under valgrind",
+    design="§4 C03"),
+ "C04": dict(
+    text="Bounded model checking (Kani/CBMC) of the real mutable-storage allocator FreeList<T> (instantiated at u8): one weak collection (quick) / one allocation (thorough) from EVERY 3-slot pre-state satisfying the invariant; no slot with a held handle is overwritten or freed, the new handle reads back its value, the invariant is re-established.",
+    note="N = 3 slots, >= 2 free before an allocation (growth by 25600 slots and compaction outside). Outside: completeness of the root set and of the marker's traversal of value kinds (need a running VM), the parallel marker.",
+    technique="SAT-based bounded model checking (Kani/CBMC) of one allocator step from a symbolic valid state; native replay by concrete playback",
+    design="§4 C04"),
+ "C06": dict(
+    text="Bounded model checking (Kani/CBMC) of the real global symbol table over short symbolic evaluation histories (definitions over 3 names, slot release as the recycler does it, a failed evaluation rolled back as the engine does it) against a ghost table of the binding in force per name.",
+    note="hashbrown replaced by association-list stubs (trusted: finite map/set). Histories: <= 2 successful definitions, 1 definition in the failed evaluation (2 do not fit the solver's memory). Outside: the recycler's reachability scan, the compiler's choice of slots, module roll-back, JIT-embedded slots.",
+    technique="SAT-based bounded model checking (Kani/CBMC) of symbolic operation histories on the real symbol table with a ghost model; native replay by concrete playback",
+    design="§4 C06"),
+ "C07": dict(
+    text="Bounded model checking (Kani/CBMC) with panic/overflow/shift/division checks on: real numeric primitives on full-width symbolic operands return Ok or Err and never panic; a failed evaluation rolled back in the real symbol table leaves no residue.",
+    note="Kernel level only. Outside: arbitrary source text (reader not encodable, see C12), expansion/compilation, stack reset after errors, native stack depth.",
+    technique="SAT-based bounded model checking (Kani/CBMC) of real primitives with Kani's panic checks; native replay by concrete playback",
+    design="§4 C07"),
+ "C19": dict(
+    text="Bounded model checking (Kani/CBMC) of the real allocator's accounting from every 3-slot pre-state: a slot without any handle is free after a weak collection; after mark_all_unreachable + marks + recount the free count equals the number of unmarked slots; the fill ratio stays in [0,1].",
+    note="As C04. Outside: cyclic garbage, the collection trigger policy, weak boxes, host-root generations (need the marker and a running VM).",
+    technique="SAT-based bounded model checking (Kani/CBMC) of allocator accounting steps from a symbolic valid state",
+    design="§4 C19"),
+ "C20": dict(
+    text="Bounded model checking (Kani/CBMC) of the real scalar conversions at the host boundary on full-width symbolic values: Ok(v) only with the same mathematical value, out of range => Err, host integers never wrap on the way in (big integer above the machine word), round trips are the identity.",
+    note="Scalars only (i8..u128, f32, f64, char, bool, unit, Option<i32>, big-integer sources up to 2^66). Outside: strings/vectors/maps/sets/tuples/structs, argument extraction and arity checks in register_fn (need an Engine), lent references (nursery is a destructor-bearing thread-local).",
+    technique="SAT-based bounded model checking (Kani/CBMC) of the real conversion impls on full-width symbolic scalars; native replay by concrete playback",
+    design="§4 C20"),
  "C10": dict(
     text="Bounded model checking with Kani/CBMC of the real numeric primitives on full-width (64-bit) symbolic operands against a 128-bit oracle and a canonical-form check; counterexamples are replayed natively with Kani's concrete playback, which runs the real code.",
     note="Trusted: Kani/CBMC; num-bigint (its `BigInt += isize`/`*= isize` are modelled by exact i128 arithmetic and the x86 carry intrinsics by their definition); feature set without jit2. Outside: the specialised arithmetic opcodes inlined in the VM loop, the constant folder, number<->string, gcd/lcm/expt, big operands above two limbs.",
